@@ -333,7 +333,17 @@ fn parse_mode() {
             Some(t) => t.to_string(),
             None => v.get("doc").map(|d| d.to_string()).unwrap_or_default(),
         };
+        if kind == "yaml2json" {
+            // the YAML text as the tool's own YAML library reads it, handed back as JSON
+            match serde_yaml::from_str::<Value>(&text) {
+                Ok(j) => println!("{}", json!({"ok": true, "json": j})),
+                Err(e) => println!("{}", json!({"ok": false, "err": e.to_string()})),
+            }
+            continue;
+        }
         let r: Result<(), String> = match kind {
+            "table_yaml" => serde_yaml::from_str::<TableDef>(&text).map(|_| ()).map_err(|e| e.to_string()),
+            "plan_yaml" => serde_yaml::from_str::<MigrationPlan>(&text).map(|_| ()).map_err(|e| e.to_string()),
             "plan" => serde_json::from_str::<MigrationPlan>(&text).map(|_| ()).map_err(|e| e.to_string()),
             "table" => serde_json::from_str::<TableDef>(&text).map(|_| ()).map_err(|e| e.to_string()),
             "config" => serde_json::from_str::<VespertideConfig>(&text).map(|_| ()).map_err(|e| e.to_string()),
